@@ -305,7 +305,24 @@ def r4_last_written_survive_close(repo=None):
         raise AnalysisError("close(): `del self._channelObj` not found")
     for getter in ("self.get_last_file_written", "self.get_last_dir_written", "self.get_last_utc_timestamp"):
         gq = "DigitalRFWriter." + getter[5:]
-        gf = m.fn(gq)
+        # the flat view: a helper shared by the three getters (`self._ask(<extension function>, "<attribute>")`) is read in place
+        gf = m.flat(gq).fn()
+        returned = {x.value.id for x in ast.walk(gf) if isinstance(x, ast.Return) and isinstance(x.value, ast.Name)}
+
+        def cached(e, gf=gf):
+            """name X when `e` reads self.X: `self.X`, `getattr(self, "X")`, `getattr(self, n)` with n = "X" assigned once"""
+            d = pyfront.dotted(e) or ""
+            if d.startswith("self.") and d.count(".") == 1:
+                return d[5:]
+            if isinstance(e, ast.Call) and pyfront.call_name(e) == "getattr" and len(e.args) == 2 and not e.keywords \
+                    and pyfront.dotted(e.args[0]) == "self":
+                a = e.args[1]
+                if isinstance(a, ast.Name):
+                    defs = [y for y in ast.walk(gf) if isinstance(y, ast.Assign) and any(isinstance(t_, ast.Name) and t_.id == a.id for t_ in y.targets)]
+                    a = defs[0].value if len(defs) == 1 else a
+                if isinstance(a, ast.Constant) and isinstance(a.value, str):
+                    return a.value
+            return None
         # the fallback attribute: what the getter returns when the channel object is gone
         attr = None
         for tr in [x for x in ast.walk(gf) if isinstance(x, ast.Try)]:
@@ -314,8 +331,11 @@ def r4_last_written_survive_close(repo=None):
                     [pyfront.dotted(e) for e in h.type.elts] if h.type is not None else [])
                 if "AttributeError" in names:
                     for x in ast.walk(h):
-                        if isinstance(x, ast.Return) and (pyfront.dotted(x.value) or "").startswith("self."):
-                            attr = pyfront.dotted(x.value)[5:]
+                        if isinstance(x, ast.Return) and x.value is not None and cached(x.value):
+                            attr = cached(x.value)
+                        elif isinstance(x, ast.Assign) and len(x.targets) == 1 and isinstance(x.targets[0], ast.Name) \
+                                and x.targets[0].id in returned and cached(x.value):
+                            attr = cached(x.value)
                     # the handler only swallows the error and the statement after the try returns the cached attribute
                     if attr is None and not any(isinstance(x, (ast.Raise, ast.Return)) for x in ast.walk(h)) and tr in gf.body:
                         after = gf.body[gf.body.index(tr) + 1:]
@@ -505,6 +525,67 @@ def r6_reported_names_are_the_names_used(repo=None):
     return r
 
 
+def r7_getters_hand_the_library_strings_on(repo=None):
+    """'The reported last file and directory written are those containing the most recently written sample': the library composes
+    them from the directory it was given (R6).  The Python getters hand that text on - they return the extension's result or the
+    copy close() took of it.  A path function applied on the way (normpath collapses `x/..` lexically, which names another
+    directory when x is a symbolic link; abspath / realpath re-root it) reports a path the writer never used."""
+    r = Rule("C19.R7", "get_last_file_written / get_last_dir_written return the extension's text (or its cached copy) unchanged")
+    m = pyfront.mod("digital_rf_hdf5", repo)
+    n_ret = 0
+    for getter in ("get_last_file_written", "get_last_dir_written"):
+        q = "DigitalRFWriter." + getter
+        # the flat view: a helper shared by the getters is read in place; a name assigned on several paths has several origins
+        f = m.flat(q).fn()
+        env = {}
+        for a in ast.walk(f):
+            if isinstance(a, ast.Assign) and len(a.targets) == 1 and isinstance(a.targets[0], ast.Name):
+                env.setdefault(a.targets[0].id, []).append(a.value)
+
+        def origins(e, depth=0, seen=()):
+            """set of 'ext' | 'cache' | ('wrapped', function) | None (not recognised)"""
+            if isinstance(e, ast.Name) and e.id in env and e.id not in seen and len(seen) < 4:
+                out = set()
+                for v_ in env[e.id]:
+                    if isinstance(v_, ast.Constant) and v_.value is None and e.id.startswith("__inl"):
+                        continue        # the inliner's "helper fell off its end" arm
+                    out |= origins(v_, depth, seen + (e.id,))
+                return out
+            if isinstance(e, ast.Call) and (pyfront.call_name(e) or "").startswith("_py_rf_write_hdf5."):
+                return {"ext"}
+            if (pyfront.dotted(e) or "").startswith("self.") and not isinstance(e, ast.Call):
+                return {"cache"}
+            if isinstance(e, ast.Call) and pyfront.call_name(e) == "getattr" and len(e.args) == 2 and pyfront.dotted(e.args[0]) == "self":
+                return {"cache"}
+            if isinstance(e, ast.Call) and depth < 3:
+                inner = set()
+                for a_ in list(e.args) + [k.value for k in e.keywords]:
+                    inner |= origins(a_, depth + 1, seen)
+                if isinstance(e.func, ast.Attribute) and not (pyfront.call_name(e) or "").startswith(("os.", "self.")):
+                    inner |= origins(e.func.value, depth + 1, seen)        # method call on the text: path.rstrip("/")
+                if any(x is not None for x in inner):
+                    return {("wrapped", pyfront.call_name(e) or norm(ast.unparse(e.func)))}
+            return {None}
+        for rt in [x for x in ast.walk(f) if isinstance(x, ast.Return) and x.value is not None]:
+            site = "%s:%s %s `%s`" % (m.rel, rt.lineno, q, norm(ast.unparse(rt))[:70])
+            for o in sorted(origins(rt.value), key=repr):
+                n_ret += 1
+                if o == "ext":
+                    r.ok(site + " [ext]", "the extension's result as it is")
+                elif o == "cache":
+                    r.ok(site + " [cache]", "the copy close() took")
+                elif isinstance(o, tuple):
+                    r.violation(m.rel, q, norm(ast.unparse(rt))[:80], "the path reported is not the library's text but `%s` of it: a lexical or "
+                                "file-system normalisation names another file than the one holding the last written sample when the channel "
+                                "directory is reached through a symbolic link and `..`" % o[1], line=rt.lineno)
+                else:
+                    raise AnalysisError("%s: returned expression `%s` not recognised" % (q, norm(ast.unparse(rt.value))[:60]))
+    if n_ret < 4:
+        raise AnalysisError("getters: %d return statements found, 4 confirmed on the reference tree" % n_ret)
+    r.guard(4)
+    return r
+
+
 def rules(repo=None):
     def r1():
         x = c05.r2_validate_before_effect_py(repo)
@@ -513,7 +594,7 @@ def rules(repo=None):
             f.rule = "C19.R1"
         return x
     return [r1, lambda: r2_affine_invariant(repo), lambda: r3_extension_returns_cursor(repo),
-            lambda: r4_last_written_survive_close(repo), lambda: r5_marker_search_on_base_name_only(repo), lambda: r6_reported_names_are_the_names_used(repo)]
+            lambda: r4_last_written_survive_close(repo), lambda: r5_marker_search_on_base_name_only(repo), lambda: r6_reported_names_are_the_names_used(repo), lambda: r7_getters_hand_the_library_strings_on(repo)]
 
 
 EXPLANATION = (
@@ -529,8 +610,9 @@ EXPLANATION = (
     "fields (followed through locals and to the callers' arguments) - a search for the temporary marker over the whole "
     "path finds it in the user's directory for some directory names, and the reported last file is then a name that never"
     ' exists. R6: string provenance of the text returned by digital_rf_get_last_dir_written / '
-    'digital_rf_get_last_file_written: <directory>/<sub_directory>(/) and that plus the base name without tmp. Does NOT '
-    'decide the value of the C cursor.')
+    'digital_rf_get_last_file_written: <directory>/<sub_directory>(/) and that plus the base name without tmp. R7: the '
+    "Python getters return the extension's text or the copy close() took, never a function of it. Does NOT decide the "
+    'value of the C cursor.')
 TECHNIQUE = ('Python ast + clang JSON AST; symbolic linear forms of the counter updates; ordering relative to the extension call; def-use of cached values')
 ASSUMPTIONS = ["the extension's return value is the library's cursor (R3); its value is not decided"]
 FILES = [RF, C_EXT, C_LIB]
